@@ -61,6 +61,7 @@ type Finding struct {
 	Property string `json:"property"`
 	Key      string `json:"key"`    // exact violation key, or prefix when Prefix is set
 	Prefix   bool   `json:"prefix"` // key is a prefix (same defect reached through several inputs)
+	Contains bool   `json:"contains"` // key is a substring identifying the failure mode inside structured keys
 	What     string `json:"what"`
 }
 
@@ -214,7 +215,7 @@ func (c *Check) Violation(key string, detail any) {
 	c.mu.Lock()
 	defer c.mu.Unlock()
 	for _, f := range c.known {
-		if f.Key == key || (f.Prefix && strings.HasPrefix(key, f.Key)) {
+		if f.Key == key || (f.Prefix && strings.HasPrefix(key, f.Key)) || (f.Contains && strings.Contains(key, f.Key)) {
 			c.knownHit[f.Key]++
 			return
 		}
